@@ -113,6 +113,45 @@ def gen_cases(rng, tier):
     for ops, c in (([[0, 1], [2, 0]], [1, 0]), ([[0, 1], [2, 0]], [0, 1]), ([[0, 1], [0, 0]], [0, 1]), ([[0, 1], [0, 0]], [2, 0])):
         for two in (False, True):
             cases.append({'kind': 'nonherm', 'ops': ops, 'c': c, 'two': two})
+    # ---- G2. two-term generators T0 + T1 handed over as SparseHamiltonian objects: T1 is the adjoint of T0 except for a
+    # controlled corruption of its alpha part, of its beta part or of its coefficient - every combination, with
+    # excitations, number operators and empty parts on either spin (the Hermiticity test of the single-term route looks
+    # at the alpha operators, the beta operators and the coefficients separately)
+    norb = 3
+    exc = [(p_, q_) for p_ in range(norb) for q_ in range(norb) if p_ != q_]
+
+    def part(kind, spin, pq):
+        if kind == 'none':
+            return []
+        if kind == 'num':
+            return [[2 * pq[0] + spin, 1], [2 * pq[0] + spin, 0]]
+        return [[2 * pq[0] + spin, 1], [2 * pq[1] + spin, 0]]
+
+    def adj(ops):
+        return [[q, 1 - d] for q, d in reversed(ops)]
+    combos = []
+    for ka in ('exc', 'num', 'none'):
+        for kb in ('exc', 'num', 'none'):
+            if (ka, kb) in (('num', 'num'), ('none', 'none'), ('num', 'none'), ('none', 'num')):
+                continue      # diagonal generators take another route
+            for ca in (False, True):
+                for cb in (False, True):
+                    for cc in ('conj', 'same', 'negconj'):
+                        if (ca and ka != 'exc') or (cb and kb != 'exc'):
+                            continue
+                        combos.append((ka, kb, ca, cb, cc))
+    for (ka, kb, ca, cb, cc) in (combos if tier != 'quick' else combos):
+        for rep in range(1 if tier == 'quick' else 3):
+            a0, b0 = rng.choice(exc), rng.choice(exc)
+            A0, B0 = part(ka, 0, a0), part(kb, 1, b0)
+            a1 = rng.choice([e for e in exc if e != (a0[1], a0[0]) and e != a0]) if ca else (a0[1], a0[0])
+            b1 = rng.choice([e for e in exc if e != (b0[1], b0[0]) and e != b0]) if cb else (b0[1], b0[0])
+            A1 = part(ka, 0, a1) if ka == 'exc' else adj(A0)
+            B1 = part(kb, 1, b1) if kb == 'exc' else adj(B0)
+            c0 = [rng.randint(1, 2), rng.choice([0, 1, -2])]
+            c1 = {'conj': [c0[0], -c0[1]], 'same': list(c0), 'negconj': [-c0[0], c0[1]]}[cc]
+            cases.append({'kind': 'nonherm2', 'norb': norb, 'terms': [[A0 + B0, c0[0], c0[1]], [A1 + B1, c1[0], c1[1]]],
+                          'tag': '%s/%s/%s%s%s' % (ka, kb, 'A' if ca else '-', 'B' if cb else '-', cc)})
     return cases
 
 
@@ -258,6 +297,26 @@ def run_impl(case, mode):
         if out is not None:
             st['norm_ratio'] = float(out.norm() / w.norm())
         return st
+    if k == 'nonherm2':
+        norb = case['norb']
+        w = fqe.Wavefunction([[3, 1, norb]])
+        numpy.random.seed(7)
+        w.set_wfn(strategy='random')
+        op = FermionOperator()
+        for ops, re, im in case['terms']:
+            op += FermionOperator(tuple((q, d) for q, d in ops), complex(re, im))
+        st0, ham = _try(lambda: fqe.get_sparse_hamiltonian(op))
+        if ham is None:
+            st0['stage'] = 'construct'
+            st0['unchanged'] = True
+            return st0
+        before = _snap(w)
+        st, out = _try(lambda: w.time_evolve(0.3, ham))
+        st['unchanged'] = _snap(w) == before
+        st['individual'] = bool(ham.is_individual())
+        if out is not None:
+            st['norm_ratio'] = float(out.norm() / w.norm())
+        return st
     raise ValueError(k)
 
 
@@ -308,6 +367,15 @@ def expected(model, case):
         return {'accept': t[0] == '1'}
     if k == 'setdata':
         return {'accept': case['bad'] >= 99}   # filled in compare (needs the sector count)
+    if k == 'nonherm2':
+        # Hermiticity of the SOURCE expression, decided independently of FQE (openfermion's normal ordering)
+        from openfermion import FermionOperator, normal_ordered, hermitian_conjugated
+        op = FermionOperator()
+        for ops, re, im in case['terms']:
+            op += FermionOperator(tuple((q, d) for q, d in ops), complex(re, im))
+        diff = normal_ordered(op - hermitian_conjugated(op))
+        herm = all(abs(c) < 1e-12 for c in diff.terms.values())
+        return {'herm': herm, 'nterms': len([c for c in normal_ordered(op).terms.values() if abs(c) > 1e-12])}
     return {}
 
 
@@ -395,6 +463,17 @@ def compare(case, got, exp, mode):
             bad.append('%s was answered instead of refused: the label addresses no spin orbital of the space' % what)
         if not got['unchanged']:
             bad.append('%s modified the wavefunction' % what)
+        return bad
+    if k == 'nonherm2':
+        if got.get('stage') == 'construct' or not got.get('individual', True):
+            return bad          # refused at construction, or not routed through the single-term evolution
+        if not exp['herm'] and got['ok']:
+            bad.append('non-Hermitian two-term generator %s [%s] was evolved (norm ratio %s) instead of refused' %
+                       (case['terms'], case['tag'], got.get('norm_ratio')))
+        if exp['herm'] and got['ok'] and abs(got.get('norm_ratio', 1.0) - 1.0) > 1e-9:
+            bad.append('Hermitian generator %s evolved to norm ratio %r' % (case['terms'], got.get('norm_ratio')))
+        if not got['ok'] and not got['unchanged']:
+            bad.append('refused evolution modified the wavefunction')
         return bad
     if k == 'nonherm':
         herm = (not case['two'] and sorted(q for q, d in case['ops'] if d) == sorted(q for q, d in case['ops'] if not d) and case['c'][1] == 0) or \
